@@ -16,6 +16,7 @@ import (
 	"pgregory.net/rapid"
 
 	sdk "github.com/cosmos/cosmos-sdk/types"
+	govv1 "github.com/cosmos/cosmos-sdk/x/gov/types/v1"
 
 	"github.com/bandprotocol/chain/v3/pkg/tss"
 	bandtsstypes "github.com/bandprotocol/chain/v3/x/bandtss/types"
@@ -57,6 +58,7 @@ type tssProfile struct {
 	wDes, wReset, wReq, wSig, wSigAll, wEnd, wAct, wOracle int
 	corrupt                                                 bool
 	internal                                                bool
+	gov                                                     bool // governance parameter changes (MaxDESize, FeePerSigner) during the history
 }
 
 func genTSSCase(rt *rapid.T, p tssProfile) tssCase {
@@ -86,6 +88,14 @@ func genTSSCase(rt *rapid.T, p tssProfile) tssCase {
 				c.Ops = append(c.Ops, tssOp{K: "end", N: 1})
 			}
 			c.Ops = append(c.Ops, tssOp{K: "sigall", S: 7, Mask: 0xff}, tssOp{K: "end", N: 1})
+			continue
+		}
+		if p.gov && gen.Chance(rt, "gov", 1, 14) {
+			if gen.Chance(rt, "govkind", 1, 2) {
+				c.Ops = append(c.Ops, tssOp{K: "gov", Variant: "maxde", N: gen.OneOf(rt, "govde", 1, 2, 3, int(c.MaxDE)-1, int(c.MaxDE)+2)})
+			} else {
+				c.Ops = append(c.Ops, tssOp{K: "gov", Variant: "fee", N: gen.Uniform(rt, "govfee", 4)})
+			}
 			continue
 		}
 		if p.internal && gen.Chance(rt, "internal", 1, 15) {
@@ -187,6 +197,9 @@ type tssWorld struct {
 	// C13 model
 	escrow   sdk.Coins
 	expected map[string]sdk.Coins // expected balances of tracked accounts
+	maxDE         uint64 // current tss MaxDESize (changes through governance)
+	proposals     uint64
+	paramChanges  int
 	seed          []byte // rolling seed of the block being observed
 	// C11: what each signing was requested for
 	sigWant       map[uint64]c11Want
@@ -232,8 +245,9 @@ func newTSSWorld(c tssCase, obs tssObs, v *pbt.Verdict) *tssWorld {
 		tssActive: map[string]bool{}, signings: map[uint64]*mSigning{}, expected: map[string]sdk.Coins{}, stats: map[string]int64{}, corruptKinds: map[string]bool{},
 		sigWant: map[uint64]c11Want{}, msgSeen: map[string]uint64{}}
 	w.fee = coinsOf(c.Fee)
+	w.maxDE = c.MaxDE
 	w.escrow = sdk.NewCoins()
-	cfg := sim.Config{NumAccounts: c.N + 3, MintOff: true,
+	cfg := sim.Config{NumAccounts: c.N + 3, MintOff: true, GovVoting: 3 * time.Second,
 		Balance:    sdk.NewCoins(sdk.NewInt64Coin("uband", 1_000_000_000), sdk.NewInt64Coin("uatom", 1_000_000_000)),
 		Validators: []sim.ValSpec{{Tokens: 10_000_000}, {Tokens: 5_000_000}},
 		DataSources: []sim.DSSpec{{Exec: []byte("ds-one-executable-bytes-0123456789abcdef"), Treasury: 0}},
@@ -556,6 +570,43 @@ func (w *tssWorld) run() {
 		case "act":
 			m := w.members[op.M%len(w.members)]
 			block = append(block, &builtTx{op: op, sender: m.Addr.String(), bz: w.ch.SignTx(m, bandtsstypes.NewMsgActivate(m.Addr.String(), w.grp.ID))})
+		case "gov":
+			// a real governance proposal changing one parameter: submit + both validators vote yes in one block;
+			// gov's end blocker executes it in the first block at/after the end of the 3 s voting period
+			ctx := w.ch.Ctx()
+			var pmsg sdk.Msg
+			if op.Variant == "maxde" {
+				tp := w.ch.App.TSSKeeper.GetParams(ctx)
+				if op.N < 1 {
+					op.N = 1
+				}
+				tp.MaxDESize = uint64(op.N)
+				pmsg = &tsstypes.MsgUpdateParams{Authority: sim.GovAuthority(), Params: tp}
+			} else {
+				bp := w.ch.App.BandtssKeeper.GetParams(ctx)
+				bp.FeePerSigner = coinsOf([][]int64{{0, 0}, {4, 0}, {25, 0}, {3, 2}}[op.N%4])
+				pmsg = &bandtsstypes.MsgUpdateParams{Authority: sim.GovAuthority(), Params: bp}
+			}
+			prop, perr := govv1.NewMsgSubmitProposal([]sdk.Msg{pmsg}, sdk.NewCoins(sdk.NewInt64Coin("uband", 10)), w.ch.Vals[0].Addr.String(), "", "t", "s", false)
+			if perr != nil {
+				continue
+			}
+			pid := w.proposals + 1
+			dup := false
+			for _, b := range block {
+				if b.op.K == "gov" {
+					dup = true // one proposal per block keeps the id prediction trivial
+				}
+			}
+			if dup {
+				continue
+			}
+			block = append(block, &builtTx{op: op, sender: w.ch.Vals[0].Addr.String(), bz: w.ch.SignTx(w.ch.Vals[0], prop)})
+			for _, vv := range w.ch.Vals {
+				o2 := op
+				o2.K = "govvote"
+				block = append(block, &builtTx{op: o2, sender: vv.Addr.String(), bz: w.ch.SignTx(vv, govv1.NewMsgVote(vv.Addr, pid, govv1.OptionYes, ""))})
+			}
 		case "req":
 			u := w.users[op.M%len(w.users)]
 			fl := w.feeLimitFor(op.Variant)
@@ -803,10 +854,10 @@ func (w *tssWorld) observe(block []*builtTx, res *sim.BlockResult) bool {
 		ok := tr.Code == 0
 		switch b.op.K {
 		case "des":
-			fits := uint64(len(w.queue[b.sender])+len(b.des)) <= w.c.MaxDE
+			fits := uint64(len(w.queue[b.sender])+len(b.des)) <= w.maxDE
 			if ok {
 				if !fits {
-					w.fail(w.obs.c05, "C05/limit", "submission of %d pairs accepted although queue has %d and max is %d", len(b.des), len(w.queue[b.sender]), w.c.MaxDE)
+					w.fail(w.obs.c05, "C05/limit", "submission of %d pairs accepted although queue has %d and max is %d", len(b.des), len(w.queue[b.sender]), w.maxDE)
 				}
 				for _, d := range b.des {
 					k := tssworld.DEKey(d)
@@ -837,6 +888,10 @@ func (w *tssWorld) observe(block []*builtTx, res *sim.BlockResult) bool {
 			}
 			if ok && s != nil {
 				s.attempts[s.attempt].submitted[b.member] = true
+			}
+		case "gov":
+			if ok {
+				w.proposals++
 			}
 		case "req", "oreq":
 			if !ok {
@@ -876,6 +931,9 @@ func (w *tssWorld) observe(block []*builtTx, res *sim.BlockResult) bool {
 		}
 	}
 
+	// governance's end blocker runs before every other module's: parameters changed by a proposal that
+	// passed in this block already apply to this block's end-block work and to everything after it
+	w.refreshParams()
 	// expectations for the end block (before looking at its events)
 	type exp struct{ success, timeout bool; idle []string }
 	expect := map[uint64]*exp{}
@@ -1004,9 +1062,8 @@ func (w *tssWorld) compareState(h int64) {
 			}
 			chain = append(chain, tssworld.DEKey(de))
 		}
-		if uint64(len(chain)) > w.c.MaxDE {
-			w.fail(w.obs.c05, "C05/limit", "queue of %s holds %d pairs, max %d", m.Addr, len(chain), w.c.MaxDE)
-		}
+		// (a queue may legitimately be longer than a maximum that governance lowered afterwards; the bound is
+		// enforced per submission above)
 		model := w.queue[m.Addr]
 		j := 0
 		for _, ck := range chain {
@@ -1134,6 +1191,9 @@ func (w *tssWorld) finish() {
 	if w.boundaryReq {
 		v.Class("fee-limit-boundary")
 	}
+	if w.paramChanges > 0 {
+		v.Class("param-changed-by-governance")
+	}
 }
 
 // refVerifyGroupSig is the independent verifier (math/big + decred group operations, written from the statement).
@@ -1194,4 +1254,18 @@ func (w *tssWorld) checkSignedMessage(id uint64, sg tsstypes.Signing, want c11Wa
 		w.fail(true, "C11/oracle-content", "signing %d: signed oracle result %+v differs from the stored result %+v", id, dec, onchain)
 	}
 	w.c11Oracle++
+}
+
+
+// refreshParams reads the governance-controlled parameters the model depends on (configuration, not behaviour).
+func (w *tssWorld) refreshParams() {
+	ctx := w.ch.Ctx()
+	if m := w.ch.App.TSSKeeper.GetParams(ctx).MaxDESize; m != w.maxDE {
+		w.maxDE = m
+		w.paramChanges++
+	}
+	if f := w.ch.App.BandtssKeeper.GetParams(ctx).FeePerSigner; !f.Equal(w.fee) {
+		w.fee = f
+		w.paramChanges++
+	}
 }
